@@ -784,7 +784,7 @@ def adjacency_rule(ctx):
             continue
         arm, case = table[v][0]
         names = [b for b in bound_fields(case).values() if b]
-        ev = pt.arm_events(arm["body"], names)
+        ev = pt.arm_events(arm["body"], names, variant=v)
         lits = [e[1] for e in ev if e[0] == "lit" and e[2] == out_param]
         for lit in lits:
             core = lit.strip()
